@@ -55,6 +55,7 @@ def enumerate_history(args):
             if which in ("C04", "both"):
                 found += [("C04",) + x for x in crashrig.check_image(table, markers, r)]
                 found += [("C04",) + x for x in crashrig.check_applied(table, markers, r)]
+                found += [("C04",) + x for x in crashrig.check_snapshot(table, markers, r)]
             if which in ("C05", "both"):
                 found += [("C05",) + x for x in crashrig.check_meta(table, markers, r)]
             for prop, clause, detail in found:
@@ -62,13 +63,15 @@ def enumerate_history(args):
                 if markers and markers[-1].startswith("S"):
                     inflight = table[int(markers[-1].split()[1])][0]["op"]
                 last_marker_op = table[int(markers[-1].split()[1])][0]["op"] if markers else None
-                sig = "%s/after:%s/%s" % (clause, last_mut_kind, ("in-flight:" + inflight) if inflight else ("acked:%s" % last_marker_op))
+                # one signature per (violated clause, operation in flight / last acknowledged); the kind of the last file
+                # mutation before the cut is part of the witness
+                sig = "%s/%s" % (clause, ("in-flight:" + inflight) if inflight else ("acked:%s" % last_marker_op))
                 key = (prop, sig)
                 if key in seen_sigs:
                     continue
                 seen_sigs.add(key)
                 res["violations"].append({"property": prop, "signature": sig, "witness": {
-                    "history_seed": seed, "profile": profile, "n_ops": n_ops, "journal_prefix": k + 1, "of": len(recs), "clause": clause, "detail": detail,
+                    "history_seed": seed, "profile": profile, "n_ops": n_ops, "journal_prefix": k + 1, "of": len(recs), "clause": clause, "detail": detail, "last_mutation_kind": last_mut_kind,
                     "markers_tail": markers[-4:], "mutations_tail": [list(x[:3]) if x[0] != "W" else [x[0], x[1], x[2], len(x[3])] for x in recs[max(0, k - 5):k + 1] if x[0] != "M"],
                     "ops_tail": [table[int(m.split()[1])][0] if len(json.dumps(table[int(m.split()[1])][0])) < 300 else {"op": table[int(m.split()[1])][0]["op"]} for m in markers[-3:] if m[0] == "S"]}})
         if len(ops) < 25:
@@ -149,7 +152,7 @@ def drive(pid, tier, seed, which, profile_mix, rule):
     out = Outcome(pid, tier, seed, level="fault_enumeration")
     out.rule = rule
     try:
-        n_hist = 24 if tier == "quick" else 240
+        n_hist = 32 if tier == "quick" else 320
         jobs = []
         for i in range(n_hist):
             profile = profile_mix[i % len(profile_mix)]
@@ -196,7 +199,7 @@ def run(tier, seed):
             "process running the real recovery code; oracle: recovery succeeds, log contiguous, only submitted entries, every acknowledged entry "
             "present (unless behind an acknowledged cut / below a pointer), last-applied <= max(log end, snapshot end). non-trivial image = image "
             "after a file mutation or marker; distinct = (kind of the last mutation before the cut, history feature set)")
-    return drive("C04", tier, seed, "C04", ["mixed", "snap", "meta"], rule)
+    return drive("C04", tier, seed, "C04", ["mixed", "snap", "meta", "cutidx"], rule)
 
 
 def replay(path):
